@@ -14,6 +14,10 @@ Configuration ORDER is generated (cfg["seq"]: card-slot calls and overlay regist
 wins").  Overlays may OVERLAP each other, the card window and the Python ROM image: precedence between overlays is
 undocumented, so an overlap cell must behave, consistently, like one of the overlays covering it (class "ovlp" of
 the model) -- which is exactly what "a byte written is what is next read / no other location changes" needs.
+Round 4: overlays are also registered INSIDE the internal window and removed again (remove_overlay); configuration
+calls that are REJECTED or name no location (c11_gen.gen_rej) occur in the configuration sequence and between
+accesses and must leave no trace (Checker._step_rej); the bulk view of the internal memory is compared with the bus at
+the end of a machine (bulk_check).
 rs-cpu additionally runs a model-free composition twin (see run_twin_batch) for wide accesses inside the internal
 memory window, observed through CPU byte loads, so that the device register block at 0xF0.. is covered by
 "multi-byte accesses equal the composition of byte accesses" without modelling the devices.
@@ -36,7 +40,14 @@ RULE = ("machines = (memory configuration, history of 8/16/24-bit loads and stor
         "registrations, 0-3 RAM/ROM overlays (30 % of configurations: overlapping each other / the card window / the "
         "Python ROM image), read-only ranges, mirror on/off; addresses from overlap spans and their edges, "
         "region interiors, region boundaries +-2, internal window, previously written cells and their "
-        "neighbours, documented aliases (2^24 wrap, mod 1 MiB / mod 256, mirror window), wild 32-bit values. "
+        "neighbours, documented aliases (2^24 wrap, mod 1 MiB / mod 256, mirror window), wild 32-bit values; "
+        "1 configuration in 5 registers overlays INSIDE the 256-byte internal window; overlays may be removed again "
+        "(remove_overlay) anywhere in the sequence; REJECTED / empty configuration calls (load_memory_card with an "
+        "empty / unsupported-size image, zero-sized overlays, removal of an unknown name, copy_external_from with a "
+        "wrong length, slice outside the backing store) are generated both in the configuration sequence and between "
+        "accesses and must leave every sentinel and the latest stores unchanged; stored values include landmark "
+        "values (zero / 0xFF bytes); at the end of a machine the bulk view of the internal memory "
+        "(get_internal_memory_bytes / internal_slice) must agree with the bus. "
         "Non-trivial = the history contains a store whose cells are later loaded through a different raw address "
         "(alias or overlapping neighbour access), or a store into a read-only/absent cell; distinct = "
         "hash(configuration, history). rs-cpu: every 16/24-bit access lying inside the internal window is also run as "
@@ -71,6 +82,10 @@ def _cfg_steps_rs(cfg: Dict[str, Any]) -> List[List[Any]]:
     for stp in M.steps(cfg):  # card-slot calls and overlay registrations in the configured order
         if stp[0] == "card":
             steps.append(["card", stp[1]["size"], stp[1]["k"]])
+        elif stp[0] == "rej":
+            steps.append(rej_step_rs(stp))
+        elif stp[0] == "rm":
+            steps.append(["remove_ovl", f"x{stp[1]}"])
         elif stp[0] == "slot":
             steps.append(["slot", bool(stp[1])])
         else:
@@ -81,6 +96,72 @@ def _cfg_steps_rs(cfg: Dict[str, Any]) -> List[List[Any]]:
             else:
                 steps.append(["rom_ovl", o["start"], o["size"], o["k"], f"x{i}"])
     return steps
+
+
+REJ_K = 15  # pattern index of the data handed to rejected calls (differs from every generated image)
+
+
+def rej_step_rs(op: List[Any]) -> List[Any]:
+    """Harness step for a rejected / empty configuration call (c11_gen.gen_rej)."""
+    kind, a, b = op[1], op[2], op[3]
+    if kind == "card-empty":
+        return ["card_raw", 0, REJ_K]
+    if kind == "card-badsize":
+        return ["card_raw", a, REJ_K]
+    if kind == "ram-ovl-empty":
+        return ["ram_ovl", a, 0, "z"]
+    if kind == "rom-ovl-empty":
+        return ["rom_ovl", a, 0, REJ_K, "z"]
+    if kind == "remove-unknown":
+        return ["remove_ovl", "no-such-overlay"]
+    if kind == "copy-ext-badlen":
+        return ["copy_ext", a, REJ_K]
+    if kind == "slice-out-of-range":
+        return ["slice", a, b, REJ_K]
+    raise HarnessError(f"C11: unknown rejected-call kind {kind!r}")
+
+
+def rej_py(mem: Any, op: List[Any]) -> None:
+    """Perform a rejected / empty configuration call on a PCE500Memory; the refusal itself is not judged."""
+    kind, a, b = op[1], op[2], op[3]
+    try:
+        if kind == "card-badsize":
+            data = M.pat_bytes(REJ_K, M.CARD_LO, b & ~1)
+            emu = getattr(mem, "_c11_keepalive", None)
+            if emu is not None and not (b & 1):
+                emu.load_memory_card(data, a)  # machine-level entry point
+            else:
+                mem.load_memory_card(data, a, writable=bool(b & 1))
+        elif kind == "ram-ovl-empty":
+            mem.add_ram(a, 0, "z")
+        elif kind == "rom-ovl-empty":
+            mem.add_rom(a, b"", "z")
+        elif kind == "remove-unknown":
+            mem.remove_overlay("no-such-overlay")
+        else:
+            raise HarnessError(f"C11: unknown rejected-call kind {kind!r} for Python")
+    except HarnessError:
+        raise
+    except Exception:
+        pass  # refused: exactly what is expected
+
+
+def rej_probes(m: M.Model, ops: List[List[Any]], idx: int) -> List[Tuple[int, str]]:
+    """Probes read after a rejected call: the cells of the last three stores before it (next to the sentinels)."""
+    out: List[Tuple[int, str]] = []
+    seen = set()
+    taken = 0
+    for op in reversed(ops[:idx]):
+        if op[0] != "st":
+            continue
+        for c in m.cells(op[1], op[2] // 8):
+            if c not in seen and m.info(c)[1] != "dev":
+                seen.add(c)
+                out.append((c, "earlier-store"))
+        taken += 1
+        if taken == 3:
+            break
+    return out
 
 
 CPU_ST = {("lmn", 8): (0xA8, "A"), ("lmn", 16): (0xAA, "BA"), ("lmn", 24): (0xAC, "X"),
@@ -108,7 +189,9 @@ def _ops_rs(case: Dict[str, Any], m: M.Model, probes: List[List[int]]) -> List[L
     out: List[List[Any]] = []
     cpu = case["cfg"]["model"] == "rs-cpu"
     for op, pr in zip(case["ops"], probes):
-        if cpu:
+        if op[0] == "rej":
+            out.append(["cfg", rej_step_rs(op), pr])
+        elif cpu:
             code, regs, ret = cpu_code(op)
             out.append(["x", M.CODE_LO, code, regs, ret, pr])
         elif op[0] == "st":
@@ -123,7 +206,9 @@ def plan(case: Dict[str, Any]) -> Tuple[M.Model, List[int], List[List[Tuple[int,
     m = M.Model(case["cfg"])
     sent = M.sentinels(m, case.get("sent_seed", 0))
     level = {"plain": 0, "edge": 0, "alias": 1, "mixed": 2}.get(case.get("profile", "mixed"), 2)
-    pl = [M.op_probes(m, op[1], op[2] // 8, level) for op in case["ops"]]
+    ops = case["ops"]
+    pl = [rej_probes(m, ops, i) if op[0] == "rej" else M.op_probes(m, op[1], op[2] // 8, level)
+          for i, op in enumerate(ops)]
     return m, sent, pl
 
 
@@ -133,7 +218,7 @@ def run_rs_batch(cases: List[Dict[str, Any]]) -> List[Any]:
         m, sent, pl = plan(case)
         reqs.append({"mode": "cpu" if case["cfg"]["model"] == "rs-cpu" else "direct",
                      "cfg": _cfg_steps_rs(case["cfg"]), "sent": sent,
-                     "ops": _ops_rs(case, m, [[a for a, _ in p] for p in pl])})
+                     "ops": _ops_rs(case, m, [[a for a, _ in p] for p in pl]) + [["imem"]]})
     req = {"cmd": "c11.run", "cases": reqs}
     try:
         resp = rsclient.shared().call(req)
@@ -175,6 +260,10 @@ def make_py(cfg: Dict[str, Any]):
             card = stp[1]
             mem.load_memory_card(M.pat_bytes(card["k"], M.CARD_LO, card["size"]), card["size"],
                                  writable=card.get("writable", True))
+        elif stp[0] == "rej":
+            rej_py(mem, stp)
+        elif stp[0] == "rm":
+            mem.remove_overlay(f"x{stp[1]}")
         elif stp[0] == "slot":
             mem.set_memory_card_present(bool(stp[1]))
         else:
@@ -188,6 +277,9 @@ def make_py(cfg: Dict[str, Any]):
 
 
 def py_exec(mem: Any, op: List[Any]) -> int:
+    if op[0] == "rej":
+        rej_py(mem, op)
+        return 0
     kind, addr, bits = op[0], op[1], op[2]
     typed = op[-1] == "t"
     if kind == "st":
@@ -212,6 +304,8 @@ def py_exec(mem: Any, op: List[Any]) -> int:
 
 # ------------------------------------------------------------------------------------------ verdicts
 def _where(m: M.Model, op: List[Any]) -> str:
+    if op[0] == "rej":
+        return f"{m.kind} rej/{op[1]}"
     regions, flags = M.describe(m, op[1], op[2] // 8)
     via = op[-1]
     return f"{m.kind} {op[0]}{op[2]}/{via} [{','.join(flags)}] {regions}"
@@ -234,6 +328,8 @@ class Checker:
         op = self.case["ops"][self.idx]
         probes = self.plan[self.idx]
         self.idx += 1
+        if op[0] == "rej":
+            return self._step_rej(op, probes, ret, pv)
         kind, addr, bits = op[0], op[1], op[2]
         n = bits // 8
         cells = m.cells(addr, n)
@@ -383,6 +479,41 @@ class Checker:
                          + (f" value {op[3]:#x}" if kind == "st" else f" -> {ret:#x}") + ": " + "; ".join(det[:6]))
 
 
+    def _step_rej(self, op: List[Any], probes: List[Tuple[int, str]], ret: int, pv: List[int]) -> Optional[Violation]:
+        """A rejected / empty configuration call: the model does nothing, so every sentinel and the cells of the
+        latest stores must read what they read before (statement: no location changes without a store to it; what
+        was written to a RAM location is what is next read)."""
+        m = self.m
+        tagged = [(a, "sentinel") for a in self.sent] + list(probes)
+        if len(pv) != len(tagged):
+            raise HarnessError(f"probe count mismatch: {len(pv)} values for {len(tagged)} probes")
+        syms: List[str] = []
+        det: List[str] = []
+        seen = set()
+        for (a, tag), v in zip(tagged, pv):
+            c = m.canon(a)
+            if c in seen:
+                continue
+            seen.add(c)
+            if tag == "sentinel":
+                tag = f"sentinel({m.info(c)[0]})"
+            if v < 0:
+                syms.append(f"{tag}:probe-none")
+                det.append(f"probe {a:#x} returned None")
+                continue
+            old = m.get(c)
+            if m.observe(c, v):
+                continue
+            syms.append(f"{tag}:changed")
+            det.append(f"{tag} probe {a:#x} (cell {c:#x}, {m.info(c)[0]}) reads {v:#04x}, before the call {old!r}")
+        if not syms:
+            return None
+        shown = {"cfg": self.case["cfg"], "ops": self.case["ops"][: self.idx],
+                 "sent_seed": self.case.get("sent_seed", 0), "profile": self.case.get("profile", "mixed")}
+        return Violation("frame", _where(m, op), ";".join(sorted(set(syms))), shown,
+                         f"op #{self.idx - 1} rejected/empty configuration call {op[1:]}: " + "; ".join(det[:6]))
+
+
 # ------------------------------------------------------------------------------------------ composition twin
 # rs-cpu only.  The reference model never value-checks device registers, so for wide accesses inside the internal
 # memory window (which holds the KOL/KOH/KIL, E-port and SIO register block at 0xF0-0xFA) the statement's "multi-byte
@@ -393,6 +524,8 @@ class Checker:
 # as the program sees them, not the backing array, and (c) every memory probe.  Grounding: property statement;
 # the RuntimeBus comment "Split multi-byte accesses so the keyboard handler sees both bytes".
 def twin_applies(op: List[Any]) -> bool:
+    if op[0] == "rej":
+        return False
     n = op[2] // 8
     a = op[1] & 0xFFFFFF
     return n > 1 and INT <= a and a + n - 1 <= INT + 0xFA
@@ -404,6 +537,10 @@ def _twin_requests(case: Dict[str, Any]) -> Tuple[Dict[str, Any], Dict[str, Any]
     B: List[List[Any]] = []
     marks: List[Tuple[int, int, int]] = []
     for k, (op, pr) in enumerate(zip(case["ops"], pl)):
+        if op[0] == "rej":
+            A.append(["cfg", rej_step_rs(op), []])
+            B.append(["cfg", rej_step_rs(op), []])
+            continue
         code, regs, ret = cpu_code(op)
         if not twin_applies(op):
             A.append(["x", M.CODE_LO, code, regs, ret, []])
@@ -514,6 +651,28 @@ def _twin_verdict(case: Dict[str, Any], marks: List[Tuple[int, int, int]], ra: A
     return None, done
 
 
+def bulk_check(ck: Checker, blob: List[int], api: str) -> Optional[Violation]:
+    """End of a machine that ran to completion: the bulk view of the internal memory (Python
+    get_internal_memory_bytes(), Rust internal_slice()) must show, for every plain internal RAM byte, what the bus
+    reads there -- i.e. the model's value (statement: a byte written to a RAM location is what is next read from it;
+    the bulk accessors are documented as "internal memory (256 bytes) as raw bytes").  Device registers and bytes
+    covered by an overlay inside the internal window are skipped."""
+    m = ck.m
+    if len(blob) != 256:
+        return Violation("api", f"{m.kind} {api}", "not 256 bytes", ck.case, f"{len(blob)} bytes")
+    bad: List[str] = []
+    for off in range(256):
+        c = INT + off
+        if m.info(c)[1] != "ram":
+            continue
+        cur = m.get(c)
+        if isinstance(cur, int) and blob[off] != cur:
+            bad.append(f"offset {off:#04x}: bulk view {blob[off]:#04x}, bus/model {cur:#04x}")
+    if not bad:
+        return None
+    return Violation("bulk-view", f"{m.kind} {api}", "int:differs-from-bus", ck.case, "; ".join(bad[:6]))
+
+
 def run_case(case: Dict[str, Any], rs_result: Any = None) -> Tuple[Optional[Violation], int]:
     """Execute + check one machine. Returns (first violation or None, number of ops checked)."""
     if case.get("twin"):
@@ -538,7 +697,12 @@ def run_case(case: Dict[str, Any], rs_result: Any = None) -> Tuple[Optional[Viol
                 return v, i + 1
             if ck.stop:
                 return None, i + 1
-        return None, len(case["ops"])
+        try:
+            blob = list(mem.get_internal_memory_bytes())
+        except Exception as exc:
+            return Violation("api", f"{kind} get_internal_memory_bytes", f"raises {type(exc).__name__}", case,
+                             repr(exc)), len(case["ops"])
+        return bulk_check(ck, blob, "get_internal_memory_bytes"), len(case["ops"])
     if rs_result is None:
         rs_result = run_rs_batch([case])[0]
     if "ops" not in rs_result:
@@ -546,13 +710,16 @@ def run_case(case: Dict[str, Any], rs_result: Any = None) -> Tuple[Optional[Viol
         if "panic" in rs_result:
             return Violation("api", f"{kind} machine", "panic", case, str(msg)[:300]), 0
         raise HarnessError(f"c11 rust harness: {msg}")
-    for i, (ret, pv) in enumerate(rs_result["ops"]):
+    nops = len(case["ops"])
+    for i, (ret, pv) in enumerate(rs_result["ops"][:nops]):
         v = ck.step(ret, pv)
         if v is not None:
             return v, i + 1
         if ck.stop:
             return None, i + 1
-    return None, len(case["ops"])
+    if len(rs_result["ops"]) > nops:
+        return bulk_check(ck, rs_result["ops"][nops][1], "internal_slice"), nops
+    return None, nops
 
 
 # ------------------------------------------------------------------------------------------ non-triviality
@@ -560,6 +727,8 @@ def nontrivial(case: Dict[str, Any]) -> bool:
     m = M.Model(case["cfg"])
     stored: Dict[int, set] = {}
     for op in case["ops"]:
+        if op[0] == "rej":
+            continue
         n = op[2] // 8
         cells = m.cells(op[1], n)
         if op[0] == "st":
@@ -635,8 +804,25 @@ def _shard(task: Tuple[int, int, str, int, int]) -> Report:
         m = M.Model(cfg)
         if m.ovlp_spans:
             lab.append("cfg:overlapping-overlays")
+        if any(o["start"] >= INT for o in cfg.get("ovl") or []):
+            lab.append("cfg:overlay-inside-internal-window")
+        for x in M.steps(cfg):
+            if x[0] == "rej":
+                lab.append("cfg:rejected-call:" + x[1])
+        if any(x[0] == "rm" for x in M.steps(cfg)):
+            lab.append("cfg:overlay-removed-again" if len(M.live_overlays(cfg)) < len(cfg.get("ovl") or [])
+                       else "cfg:remove-before-registration")
+        after_rej = False
         for op in case["ops"][:checked]:
+            if op[0] == "rej":
+                lab.append("op:rej:" + op[1])
+                after_rej = True
+                continue
             regions, flags = M.describe(m, op[1], op[2] // 8)
+            if after_rej and ("card" in regions or "ovlp" in regions or "oram" in regions):
+                lab.append("op:" + op[0] + "-in-overlay-after-rejected-call")
+            if "int-ovlp" in regions:
+                lab.append("op:" + op[0] + "-in-internal-overlay")
             if "ovlp" in regions:
                 lab.append("op:" + op[0] + "-in-overlap")
             lab.append(f"op:{op[0]}{op[2]}")
@@ -719,6 +905,18 @@ def run(ctx: Ctx) -> Report:
         "0x2000-0x2FFF and 0xA000-0xAFFF) are never value-checked; rs-cpu never targets IMEM 0xFB-0xFF",
         "RAM power-on content is injected through the backing store (external_memory slice / load_external)",
         "rs-cpu 24-bit accesses use MV [lmn],X / MV X,[lmn]: 20 significant bits",
+        "overlays registered inside the internal window 0x100000-0x1000FF: whether the internal memory consults the "
+        "overlay table is undocumented (Rust never does; Python only inside the key-port block) -> a covered byte "
+        "must behave consistently like the plain internal byte or like the overlay; every internal byte NOT covered "
+        "stays plain internal RAM.  Python: generated only next to a ROM image (the ROM-less top-256 aliasing is a "
+        "known finding of its own); py-emu / rs-cpu: never over the device registers 0xF0-0xFF",
+        "an overlay removed again before the first access counts as never registered (overlay data is separate "
+        "from the base array in both implementations' documented constructors)",
+        "rejected / empty configuration calls are no-ops of the model; whether the call reports its refusal "
+        "(Err / exception) is not judged, only that no location changes.  Python add_ram(start, 0) / add_rom(start, "
+        "b'') are generated for external start addresses only",
+        "bulk view (end of machine, only when no violation occurred): plain internal RAM bytes only; device "
+        "registers and bytes under an internal overlay are skipped",
         "a machine stops at its first violating operation",
     ]
     return rep
@@ -773,10 +971,10 @@ def shrink(ctx: Ctx, v: Violation) -> Violation:
         if k == "ovl" and cfg.get("seq") is not None:
             seq = []
             for x in cfg["seq"]:
-                if x[0] != "ovl":
+                if x[0] not in ("ovl", "rm"):
                     seq.append(x)
                 elif j is not None and x[1] != j:
-                    seq.append(["ovl", x[1] - (1 if x[1] > j else 0)])
+                    seq.append([x[0], x[1] - (1 if x[1] > j else 0)])
             cfg["seq"] = seq
 
     for k in ("ovl", "ro", "card", "slot", "rom", "map", "fill"):
@@ -809,6 +1007,8 @@ def shrink(ctx: Ctx, v: Violation) -> Violation:
             case, best = copy.deepcopy(w.case), w
     # 3. strip alias bits that do not matter
     for j, op in enumerate(case["ops"]):
+        if op[0] == "rej":
+            continue
         for cand in (op[1] & 0xFFFFFF, op[1] & 0xFFFFF):
             if cand != op[1]:
                 trial = copy.deepcopy(case)
